@@ -106,6 +106,23 @@ fn tok_str(t: &sakuramml::token::Token) -> String {
     out.push(')');
     out
 }
+/// one token as an S-expression: `(Type value_i line (data…) (children…)|_)`
+fn tok_sexp(t: &sakuramml::token::Token) -> String {
+    let kids = match &t.children { Some(c) => format!("({})", c.iter().map(tok_sexp).collect::<Vec<_>>().join(" ")), None => "_".to_string() };
+    format!("({:?} {} {} ({}) {})", t.ttype, t.value_i, t.lineno, t.data.iter().map(sv_sexp).collect::<Vec<_>>().join(" "), kids)
+}
+fn sv_sexp(v: &SValue) -> String {
+    match v {
+        SValue::Int(i) => format!("I{}", i),
+        SValue::Str(s, _) => format!("S{}", if s.is_empty() { "~".to_string() } else { hex(s.as_bytes()) }),
+        SValue::Bool(b) => format!("B{}", if *b { 1 } else { 0 }),
+        SValue::Array(a) => format!("(A {})", a.iter().map(sv_sexp).collect::<Vec<_>>().join(" ")),
+        SValue::IntArray(a) => format!("(IA {})", a.iter().map(|x| x.to_string()).collect::<Vec<_>>().join(" ")),
+        SValue::StrArray(a) => format!("(SA {})", a.iter().map(|x| hex(x.as_bytes())).collect::<Vec<_>>().join(" ")),
+        SValue::UserFunc(i) => format!("F{}", i),
+        SValue::None => "N".to_string(),
+    }
+}
 fn sv_tok(v: &SValue) -> String {
     match v {
         SValue::Int(i) => format!("I{}", i),
@@ -276,7 +293,8 @@ fn handle(line: &str) -> String {
             let toks = lexer::lex(&mut song, &src, 0);
             runner::exec(&mut song, &toks);
             let st: Vec<String> = song.tracks.iter().map(track_state).collect();
-            format!("ok toks={} tracks={} state={} cur={} tb={}", hex(toks.iter().map(tok_str).collect::<Vec<_>>().join(" ").as_bytes()), tracks_str(&song), st.join(";"), song.cur_track, song.timebase)
+            let log = song.get_logs_str();
+            format!("ok toks={} tracks={} state={} cur={} tb={} pf={} seed={} log={}", hex(toks.iter().map(tok_sexp).collect::<Vec<_>>().join(" ").as_bytes()), tracks_str(&song), st.join(";"), song.cur_track, song.timebase, song.play_from, song.rand_seed, if log.is_empty() { "~".to_string() } else { hex(log.as_bytes()) })
         }
         "ping" => "ok pong".to_string(),
         _ => "bad-op".to_string(),
